@@ -226,10 +226,15 @@ impl DegreeMeta for Expression {
                 // Constant indices are ignored when determining the degree of an access.
                 // However, an element which is selected by a signal (like `table[in]`) is
                 // not a polynomial of bounded degree, even if all elements are constant.
+                // (If the degree of the index is not known, it is enough that the index
+                // mentions a signal, e.g. as an argument to a function.)
                 let is_selected_by_signal = access.iter().any(|access| match access {
-                    AccessType::ArrayAccess(index) => {
-                        matches!(index.degree(), Some(range) if !range.is_constant())
-                    }
+                    AccessType::ArrayAccess(index) => match index.degree() {
+                        Some(range) => !range.is_constant(),
+                        None => {
+                            !index.signals_read().is_empty() || !index.components_read().is_empty()
+                        }
+                    },
                     AccessType::ComponentAccess(_) => false,
                 });
                 if !is_selected_by_signal {
